@@ -902,3 +902,52 @@ Proof.
   specialize (H Hil eq_refl eq_refl I).
   apply (f_equal n_halted) in H. vm_compute in H. discriminate.
 Qed.
+
+(* ---- copies that keep an item's identity; signers without a public key (stream h of the harness) ---------- *)
+(* a signer without a public key (the address-only form the wire format allows, whatever the address says): the header
+   path answers "not a header", the data path ignores the blob; no mark, no event, no panic *)
+Lemma keyless_header_ignored : forall g hs ds sh, sg_pub (sh_signer sh) = None ->
+  da_admit g hs ds (BHdr sh) = da_nothing false.
+Proof.
+  intros g hs ds sh H. unfold da_admit, validate_basic. rewrite H.
+  rewrite !andb_false_r. reflexivity.
+Qed.
+Lemma keyless_data_ignored : forall g hs ds sd, sg_pub (sd_signer sd) = None ->
+  da_admit g hs ds (BData sd) = da_nothing false.
+Proof.
+  intros g hs ds sd H. unfold da_admit, is_valid_signed_data. rewrite H. rewrite !andb_false_r.
+  destruct (d_txs (sd_data sd)); [reflexivity|]. destruct (d_meta (sd_data sd)); reflexivity.
+Qed.
+Lemma keyless_step : forall g now tb s b,
+  match b with BHdr sh => sg_pub (sh_signer sh) = None | BData sd => sg_pub (sd_signer sd) = None | _ => False end ->
+  node_step g now tb s (IDA b) = (s, 0%N).
+Proof.
+  intros g now tb s b H. unfold node_step. destruct (n_crashed s) eqn:Ec; [reflexivity|]. unfold da_blob_step.
+  destruct b as [| | |sh|sd]; try contradiction.
+  - rewrite (keyless_header_ignored _ _ _ _ H). cbn. destruct s; cbn in Ec; subst; reflexivity.
+  - rewrite (keyless_data_ignored _ _ _ _ H). cbn. destruct s; cbn in Ec; subst; reflexivity.
+Qed.
+
+(* a third party's blob read ahead of ANY blob b - in particular a copy that shares b's identity (same header, hence same
+   hash; same data, hence same commitment) under another signature or signer - leaves no trace: b then does what it does alone *)
+Lemma identity_copy_ahead : forall pk g, g_proposer g = Addr pk -> forall now tb s b' b,
+  blob_adversarial pk b' = true -> hstore_inv pk s ->
+  node_final g now tb s [IDA b'; IDA b] = node_final g now tb s [IDA b].
+Proof.
+  intros pk g Hg now tb s b' b Hadv Hinv.
+  apply (no_halt_da_full pk g Hg now tb [IDA b] [IDA b'] [IDA b'; IDA b]).
+  - apply il_r. apply il_l. apply il_nil.
+  - reflexivity.
+  - cbn. rewrite Hadv. reflexivity.
+  - exact Hinv.
+Qed.
+Lemma identity_copy_same_height : forall pk g, g_proposer g = Addr pk -> forall now tb s b' b,
+  blob_adversarial pk b' = true -> hstore_inv pk s ->
+  fst (node_step g now tb s (IDAHeight [b'; b])) = fst (node_step g now tb s (IDAHeight [b])).
+Proof.
+  intros pk g Hg now tb s b' b Hadv Hinv.
+  apply (crowded_height_full pk g Hg now tb [b] [b'] [b'; b]).
+  - apply il_r. apply il_l. apply il_nil.
+  - cbn. rewrite Hadv. reflexivity.
+  - exact Hinv.
+Qed.
